@@ -19,11 +19,11 @@ LEVEL = "model_checking"
 ENCODED = ["twisted.mail.imap4:collapseNestedLists", "twisted.mail.imap4:_quote", "twisted.mail.imap4:_needsLiteral",
            "twisted.mail.imap4:_literal", "twisted.mail.imap4:parseNestedParens", "twisted.mail.imap4:collapseStrings",
            "twisted.mail.imap4:splitOn", "twisted.mail.imap4:splitQuoted", "twisted.python.compat:_matchingString"]
-BOUNDS = {"quick": {"n1": 3, "na": 2, "nb": 1}, "thorough": {"n1": 4, "na": 3, "nb": 2}}
+BOUNDS = {"quick": {"n1": 3, "na": 2, "nb": 2}, "thorough": {"n1": 5, "na": 3, "nb": 3}}
 B = {}
 BOUNDS_TEXT = ("one-leaf shapes [A], [[A]], [[[A]]], [[], A]: leaf = any byte string of <= n1 bytes / None / int 0..11; "
                "two-leaf shapes [A,B], [[A,B]], [A,[B]], [[A],B], [[A],[B]], [A,[],B]: A any byte string of "
-               "1..na bytes, B any byte string of <= nb bytes / None / int 0..11")
+               "1..na bytes, B any byte string of <= nb bytes / None / int 0..3")
 OUTSIDE = ["more than two leaves, nesting deeper than 3, byte strings longer than the bound",
            "strings longer than 1000 bytes (sent as literals because of their length only)",
            "negative or large integers (only their decimal text matters to the code)",
@@ -67,6 +67,18 @@ def _menu(n, v):
         if v == k:
             return k
     return n - 1
+
+
+def _fixlen(text, maxlen):
+    """same text with a plain-int length: a list of its characters re-joined (len() of a symbolic str
+    is a symbolic int even when a shard pins it, which would make every index into the serialised
+    text symbolic)"""
+    if lbytes._is_conc(text):
+        return text
+    for n in range(maxlen + 1):
+        if len(text) == n:
+            return "".join([text[k] for k in range(n)])
+    return text
 
 
 def _leaf(kind, text, num):
@@ -146,6 +158,7 @@ def one(shape: int, kind: int, a: str, num: int) -> bool:
     """
     shape = _menu(_SHAPES1, shape)
     kind = _menu(3, kind)
+    a = _fixlen(a, B['n1'])
     v, e = _leaf(kind, a, num)
     x, want = _shape1(shape, v, e)
     got = _roundtrip(x)
@@ -155,13 +168,14 @@ def one(shape: int, kind: int, a: str, num: int) -> bool:
 
 def two(shape: int, a: str, kind: int, b_: str, num: int) -> bool:
     """
-    pre: 0 <= shape < _SHAPES2 and 0 <= kind <= 2 and 0 <= num <= 11
+    pre: 0 <= shape < _SHAPES2 and 0 <= kind <= 2 and 0 <= num <= 3
     pre: 1 <= len(a) <= B['na'] and len(b_) <= B['nb'] and all(ord(c) < 256 for c in a + b_)
     pre: kind == 0 or len(b_) == 0
     post: _
     """
     shape = _menu(_SHAPES2, shape)
     kind = _menu(3, kind)
+    a, b_ = _fixlen(a, B['na']), _fixlen(b_, B['nb'])
     va, ea = _leaf(0, a, 0)
     vb, eb = _leaf(kind, b_, num)
     x, want = _shape2(shape, va, ea, vb, eb)
